@@ -20,7 +20,7 @@ CHECKS = {
     "C13": ("exploration",
             "program-space exploration driven by the TLA+ kind system: TLC enumerates well-kinded and ill-kinded stacks, each becomes a generated translation unit exercising the whole field API (must compile and run clean) or must be rejected by the compiler",
             "Stack!WellKinded is the library's kind system written down once; StackMC enumerates well-kinded stacks (pairwise adjacency cover, seeded depth <= 5, helper chains to depth 10) and one ill-kinded stack per stated rule; the generated program asserts the backend concept and trivially copyable views and uses parameter-pack construction, default construction, views, both lookup forms, copy/move construction and assignment, configuration/backend accessors, conversion from a compatible stack, dump and load; g++ and the sanitised run are the judges.",
-            "Exploration, not exhaustive enumeration of all stacks of depth <= 5. cuda_device_array is compiled and run against a host shim of the CUDA runtime (reduced assurance); cuda_texture is not compiled. ViewBytes is a lower bound (padding ignored), well-kinded stacks stay below 200 bytes.",
+            "Exploration, not exhaustive enumeration of all stacks of depth <= 5. cuda_device_array is compiled and run against a host shim of the CUDA runtime (reduced assurance); cuda_texture is not compiled. Stack!ViewBytesUp is an upper bound of the view size (members rounded up to 8 per layer); well-kinded stacks have a bound of at most 256 bytes, the library's limit, and stacks exactly on the limit are always generated.",
             "DESIGN.md section 4, C13"),
     "C17": ("model_checking",
             "TLA+ Configs (i-th configuration belongs to the i-th layer) over TLC-enumerated stacks and helper chains + generated programs reading configurations back, rebuilding and using the positional helper",
